@@ -36,6 +36,9 @@ class BreakOrContinueOutOfLoopTransformer(
         original_node: cst.Break | cst.Continue,
         updated_node: cst.Break | cst.Continue,
     ):
+        if not self.node_is_selected(original_node):
+            return updated_node
+
         ancestors = self.path_to_root(original_node)
 
         # is it inside a for or while ?
